@@ -84,4 +84,21 @@ mod tests {
             }
         }
     }
+
+    /// `data_offset + data_size` of a caller supplied location used to
+    /// overflow (a panic when overflow checks are enabled).
+    #[test]
+    fn location_beyond_usize_is_out_of_bounds() {
+        use super::super::bitmap::BitmapLocation;
+        let font = FontRef::new(font_test_data::EMBEDDED_BITMAPS).unwrap();
+        let cbdt = font.cbdt().unwrap();
+        let location = BitmapLocation {
+            format: 17,
+            data_offset: 1,
+            data_size: usize::MAX,
+            bit_depth: 32,
+            metrics: None,
+        };
+        assert!(cbdt.data(&location).is_err());
+    }
 }
